@@ -4,6 +4,13 @@
 //! (tag 0 = -0.0, bit-wise) images, for a share of the small cases also on `i8`, `bool`, `String`, `f32` (-0.0), every time on BOTH
 //! receivers (`a.op(..)` and `Ok(a).op(..)` through `impl ArrayReorder for Result<Array<T>, ArrayError>`), and the i64 call is
 //! repeated (same call twice).  Any divergence between element types / receivers / repetitions fails the case.
+//!
+//! Robustness streams, part 2: `seq call / call / …` lines run several calls back to back on the executing thread (hidden state:
+//! shapes that collide under weak hashes with EQUAL element counts, permuted / regrouped shapes, all axis pairs of one shape, a
+//! refused call followed by a valid one, A–B–A); `n call…` lines are huge arrays (16 384 … 140 000 elements) judged by the
+//! harness-native coordinate-formula reference `oracle`, which is compared with the full model answer on EVERY other case of the
+//! run (counted in the `oracle_report` lines); `exec` additionally re-runs the previous case after a share of the cases (implicit
+//! A–B–A) and demands the identical answer.
 use arrharness::*;
 use std::cell::RefCell;
 
@@ -212,16 +219,286 @@ fn gen(tier: &str, seed: u64, out: &mut dyn FnMut(String)) {
             _ => out(format!("rot90 {a} {} {},{}", rng.below(8), spell(i, nd, rng.below(2) == 0), spell(j, nd, rng.below(2) == 0))),
         }
     }
+    // ---- robustness streams, part 2: hidden state, huge sizes, exact lengths and values, long lists and high ranks
+    gen_part2(thorough, &mut rng, out);
+}
+
+
+// ---------------------------------------------------------------- robustness streams, part 2 (generator)
+
+fn seq(calls: &[String]) -> String { format!("seq {}", calls.join(" / ")) }
+
+/// pairs of DIFFERENT shapes with the SAME element count that collide under `h = h*m + dim` (any start value, also when the rank is
+/// hashed first and an axis list afterwards): [a, m(a+t)] and [a+t, m*a]; with a common leading / trailing axis for rank 3
+fn equal_count_collisions(thorough: bool) -> Vec<(Vec<usize>, Vec<usize>, usize)> {
+    let mut v = vec![];
+    for &m in &[31usize, 33, 37, 131, 257] {
+        for (a, t) in [(1usize, 1usize), (2, 1), (1, 2), (3, 1), (2, 3)] {
+            if m * a * (a + t) > (if thorough { 8000 } else { 2400 }) { continue; }
+            v.push((vec![a, m * (a + t)], vec![a + t, m * a], 0));
+            if m <= 37 || thorough {
+                v.push((vec![2, a, m * (a + t)], vec![2, a + t, m * a], 1));
+                v.push((vec![a, m * (a + t), 2], vec![a + t, m * a, 2], 0));
+            }
+        }
+        // the rank-3 family of the other neighbouring pair: [p, 2, m] and [p, 1, 2m]
+        v.push((vec![3, 2, m], vec![3, 1, 2 * m], 1));
+    }
+    v
+}
+
+fn gen_part2(thorough: bool, rng: &mut Rng, out: &mut dyn FnMut(String)) {
+    out("oracle_report".to_string());
+    // ---- 6a. hidden state: colliding shapes with equal element counts, back to back, both orders, through every operation that could
+    // memoise a plan per shape (the odd quarter turns transpose; flip / roll cut the flat vector by the shape)
+    for (sa, sb, i) in equal_count_collisions(thorough) {
+        let (a, b, j) = (tag(&sa), tag(&sb), i + 1);
+        for (x, y) in [(&a, &b), (&b, &a)] {
+            out(seq(&[format!("rot90 {x} 1 {i},{j}"), format!("rot90 {y} 1 {i},{j}"), format!("rot90 {x} 1 {i},{j}")]));
+            out(seq(&[format!("rot90 {x} 3 {j},{i}"), format!("rot90 {y} 3 {j},{i}"), format!("rot90 {y} 2 {i},{j}"), format!("rot90 {x} 2 {i},{j}")]));
+            out(seq(&[format!("flip {x} {j}"), format!("flip {y} {j}"), format!("roll {x} 3 {j}"), format!("roll {y} 3 {j}"), format!("flip {x} {i}"), format!("flip {y} {i}"), format!("roll {x} 1 {i}"), format!("roll {y} 1 {i}")]));
+        }
+    }
+    // lib pairs (different element counts, multipliers 31, 33, 37, 131, 257): the order alternates (thorough: both orders)
+    for (q, (sa, sb)) in collision_shape_pairs().into_iter().enumerate() {
+        let i = if sa.len() == 3 && sa[0] == 2 && sb[0] == 2 && sa[2] != 2 { 1 } else { 0 }; let j = i + 1;
+        let (a, b) = (tag(&sa), tag(&sb));
+        let orders: Vec<(&String, &String)> = if thorough { vec![(&a, &b), (&b, &a)] } else if q % 2 == 0 { vec![(&a, &b)] } else { vec![(&b, &a)] };
+        for (x, y) in orders {
+            out(seq(&[format!("rot90 {x} 1 {i},{j}"), format!("rot90 {y} 1 {i},{j}"), format!("rot90 {x} 3 {i},{j}")]));
+            if q % 3 == 0 || thorough { out(seq(&[format!("flip {x} {j}"), format!("flip {y} {j}"), format!("roll {x} 2 {j}"), format!("roll {y} 2 {j}"), format!("roll {x} 1 {i}"), format!("roll {y} 1 {i}")])); }
+        }
+    }
+    // ---- 6b. permuted and regrouped shapes with equal element counts in ONE sequence (keys that only hash the element count, the sum,
+    // the product or the xor of the extents), forwards and backwards; all ordered axis pairs of one shape (keys that ignore the axes)
+    for group in [vec![vec![2usize, 6], vec![3, 4], vec![4, 3], vec![6, 2], vec![12, 1], vec![1, 12]], vec![vec![8, 9], vec![9, 8], vec![6, 12], vec![12, 6], vec![3, 24], vec![72, 1]],
+                  vec![vec![2, 3, 4], vec![4, 3, 2], vec![3, 2, 4], vec![2, 4, 3], vec![4, 2, 3], vec![3, 4, 2], vec![2, 2, 6], vec![6, 2, 2]], vec![vec![16, 17], vec![17, 16], vec![8, 34], vec![34, 8], vec![4, 68], vec![2, 136]],
+                  vec![vec![1, 2, 3, 4], vec![4, 3, 2, 1], vec![2, 1, 4, 3], vec![3, 4, 1, 2], vec![2, 2, 2, 3]]] {
+        for rev in [false, true] {
+            let mut g = group.clone(); if rev { g.reverse(); }
+            let nd = g[0].len();
+            for k in [1usize, 3] { out(seq(&g.iter().map(|s| format!("rot90 {} {k} {},{}", tag(s), nd - 2, nd - 1)).collect::<Vec<_>>())); }
+            out(seq(&g.iter().map(|s| format!("rot90 {} 1 {},0", tag(s), nd - 1)).collect::<Vec<_>>()));
+            out(seq(&g.iter().map(|s| format!("flip {} {}", tag(s), nd - 1)).collect::<Vec<_>>()));
+            out(seq(&g.iter().map(|s| format!("roll {} 5 {}", tag(s), nd - 2)).collect::<Vec<_>>()));
+            out(seq(&g.iter().map(|s| format!("roll {} 5 none", tag(s))).collect::<Vec<_>>()));
+        }
+    }
+    for s in [vec![3usize, 3, 3], vec![2, 2, 2, 2], vec![4, 4], vec![2, 3, 2, 3], vec![5, 5, 5], vec![2, 2, 2, 2, 2]] {
+        let nd = s.len(); let a = tag(&s);
+        let pairs: Vec<(usize, usize)> = (0..nd).flat_map(|i| (0..nd).map(move |j| (i, j))).filter(|(i, j)| i != j).collect();
+        for k in [1usize, 3] {
+            out(seq(&pairs.iter().map(|(i, j)| format!("rot90 {a} {k} {i},{j}")).collect::<Vec<_>>()));
+            out(seq(&pairs.iter().rev().map(|(i, j)| format!("rot90 {a} {k} {},{}", spell(*i, nd, true), j)).collect::<Vec<_>>()));
+        }
+        out(seq(&(0..nd).map(|i| format!("flip {a} {i}")).chain((0..nd).rev().map(|i| format!("roll {a} 1 {i}"))).collect::<Vec<_>>()));
+    }
+    // ---- 6c. a refused call directly followed by valid calls on the same thread: the invalid entry of the list first / in the middle /
+    // last (an accumulator filled before the failing entry must not leak into the next call)
+    {
+        let mut ss = shapes(1, 3, 2, 3); ss.extend([vec![1, 4], vec![5, 2, 1], vec![2, 2, 2, 2], vec![7, 9]]);
+        for s in &ss {
+            let nd = s.len(); let a = tag(s); let (ndi, last) = (nd as isize, nd as isize - 1);
+            let bads: Vec<String> = vec![
+                format!("roll {a} 1,1 0,{}", ndi + 3), format!("roll {a} 1,1 {},0", ndi), format!("roll {a} 2,1,1 {last},{},0", -ndi - 1), format!("roll {a} 1,2,3 0,{last}"),
+                format!("roll {a} 1 0,{last},{}", ndi + 1), format!("roll {a} 4,5 none"), format!("flip {a} 0,{}", ndi), format!("flip {a} {last},0,{}", -ndi - 1), format!("flip {a} {},0", ndi + 2),
+                format!("rot90 {a} 1 0,{}", ndi), format!("rot90 {a} 3 {},{last}", -ndi - 1), format!("rot90 {a} 1 0,{last},0"), format!("rot90 {a} 2 0,{}", ndi + 1)];
+            let goods: Vec<String> = vec![format!("roll {a} 1 {last}"), format!("roll {a} 1 0"), format!("roll {a} 1 none"), format!("flip {a} {last}"), format!("flip {a} 0"), format!("flip {a} none"),
+                format!("rot90 {a} 1 0,{last}"), format!("rot90 {a} 2 {last},0"), format!("roll {a} 1,2 0,{}", -1), format!("fliplr {a}"), format!("flipud {a}")];
+            for (q, bad) in bads.iter().enumerate() {
+                let g1 = &goods[q % goods.len()]; let g2 = &goods[(q * 5 + 3) % goods.len()];
+                out(seq(&[bad.clone(), g1.clone(), g2.clone()]));
+                if thorough || s.len() == 2 { for g in goods.iter().take(3) { out(seq(&[bad.clone(), g.clone()])); } }
+            }
+            // two refused calls, then the valid one; a valid call between two refused ones
+            out(seq(&[bads[0].clone(), bads[6].clone(), goods[0].clone(), bads[1].clone(), goods[3].clone(), goods[1].clone()]));
+        }
+    }
+    // ---- 6d. A–B–A: a call, a different call, the first call again (seeded, small scope and axis lengths up to 17)
+    {
+        let mk = |rng: &mut Rng| -> String {
+            let nd = 1 + rng.below(4); let hi = if rng.below(3) == 0 { 17 } else { 4 };
+            let mut s: Vec<usize> = (0..nd).map(|_| 1 + rng.below(hi)).collect();
+            while s.iter().product::<usize>() > 800 { let p = rng.below(nd); s[p] = 1 + s[p] / 2; }
+            let a = tag(&s); let (i, j) = (rng.below(nd), rng.below(nd));
+            match rng.below(4) {
+                0 => format!("flip {a} {},{}", spell(i, nd, rng.below(2) == 0), spell(j, nd, rng.below(2) == 0)),
+                1 => format!("roll {a} {},{} {},{}", rng.range(-9, 9), rng.range(-9, 9), spell(i, nd, rng.below(2) == 0), spell(j, nd, rng.below(2) == 0)),
+                2 => format!("roll {a} {} none", rng.range(-30, 30)),
+                _ => format!("rot90 {a} {} {},{}", rng.below(8), spell(i, nd, rng.below(2) == 0), spell(j, nd, rng.below(2) == 0)),
+            }
+        };
+        for _ in 0..(if thorough { 1500 } else { 250 }) { let (a, b) = (mk(rng), mk(rng)); out(seq(&[a.clone(), b, a])); }
+    }
+    // ---- 7. huge sizes (16 384 … 140 000 elements, an axis above 65 536, extents that are no multiples of 32): every operation through
+    // the native reference (`n` lines); the operations whose model is linear (flip none, the last axis, the flat roll) also directly
+    let mut huge = huge_shapes();
+    huge.extend([vec![1024, 10], vec![4, 25, 100], vec![3, 8200], vec![8193, 2], vec![2, 2, 4099], vec![191, 193], vec![65537], vec![1, 65600], vec![257, 64]]);
+    if thorough { huge.extend([vec![65, 257], vec![1000, 131], vec![7, 9, 11, 13, 2], vec![2, 3, 2, 3, 2, 3, 2, 37], vec![131072], vec![3, 40000], vec![40000, 3], vec![127, 129, 3]]); }
+    for (q, s) in huge.iter().enumerate() {
+        let a = tag(s); let nd = s.len(); let n: usize = s.iter().product(); let ni = n as isize;
+        out(format!("n flip {a} none")); out(format!("n flipud {a}")); if nd >= 2 { out(format!("n fliplr {a}")); }
+        for i in 0..nd { out(format!("n flip {a} {}", spell(i, nd, (i + q) % 2 == 1))); }
+        if nd >= 2 { out(format!("n flip {a} {},0", spell(nd - 1, nd, true))); out(format!("n flip {a} {}", show_list(&(0..nd as isize).rev().collect::<Vec<_>>()))); }
+        for sh in [1, -1, ni / 2 + 1, ni + 7, -(3 * ni + 5), 8191, 65537] { out(format!("n roll {a} {sh} none")); }
+        for i in 0..nd { let d = s[i] as isize; for (r, sh) in [1, -1, d / 2, d + 1, -2 * d - 3, 63, 4097].into_iter().enumerate() { if r < 3 || (r + q + i) % 2 == 0 || thorough { out(format!("n roll {a} {sh} {}", spell(i, nd, (r + i) % 2 == 1))); } } }
+        if nd >= 2 { out(format!("n roll {a} 3,-5,9 {},{},0", spell(nd - 1, nd, true), spell(1, nd, false))); out(format!("n roll {a} 7 0,{}", spell(nd - 1, nd, false))); }
+        if nd >= 2 {
+            let mut pairs = vec![(0, nd - 1), (nd - 1, 0)]; if nd > 2 { pairs.extend([(0, 1), (1, 2), (nd - 1, nd - 2), (2, 0)]); }
+            for (r, (i, j)) in pairs.into_iter().enumerate() { for k in [1usize, 2, 3] {
+                if r >= 2 && !thorough && (k + r + q) % 3 != 0 { continue; }
+                out(format!("n rot90 {a} {} {},{}", if (r + q) % 4 == 3 { k + 4 } else { k }, spell(i, nd, (q + k) % 3 == 1), spell(j, nd, (r + k) % 2 == 1)));
+            } }
+            out(format!("n rot90 {a} 1 {},{}", nd - 1, nd - 1));
+        }
+        // the direct comparison with the model where it is linear
+        out(format!("flip {a} none")); out(format!("flip {a} {}", spell(nd - 1, nd, q % 2 == 0)));
+        out(format!("roll {a} {} none", ni / 3 + 1)); out(format!("roll {a} {} {}", -(s[nd - 1] as isize) / 2 - 1, nd - 1));
+        if thorough && s[0] <= 300 { out(format!("flip {a} 0")); out(format!("roll {a} 1 0")); if nd >= 2 && n <= 17000 { out(format!("rot90 {a} 1 0,{}", nd - 1)); } }
+    }
+    // hidden state at huge sizes: shapes with equal element counts back to back through the reference
+    out(seq(&[format!("n rot90 {} 1 0,1", tag(&[130, 130])), format!("n rot90 {} 1 0,1", tag(&[65, 260])), format!("n rot90 {} 1 0,1", tag(&[260, 65])), format!("n rot90 {} 3 1,0", tag(&[130, 130]))]));
+    out(seq(&[format!("n rot90 {} 1 0,1", tag(&[2, 31 * 300])), format!("n rot90 {} 1 0,1", tag(&[3, 31 * 200])), format!("n rot90 {} 1 0,1", tag(&[2, 31 * 300]))]));
+    out(seq(&[format!("n flip {} 1", tag(&[1024, 10])), format!("n flip {} 1", tag(&[10, 1024])), format!("n flip {} 1", tag(&[1024, 10])), format!("n roll {} 3 1", tag(&[10, 1024]))]));
+    // ---- 8. exact lengths and values: every axis length 1..300 in a non-leading position; shifts and turn counts c + 2^8, c + 2^16, c + 2^32
+    for l in 1..=300usize {
+        let a = tag(&[2, l]);
+        out(format!("flip {a} 1")); out(format!("roll {a} 1 -1")); out(format!("rot90 {a} 1 0,1"));
+        match l % 3 { 0 => out(format!("roll {a} -1 1")), 1 => out(format!("rot90 {a} 3 1,0")), _ => out(format!("roll {a} {} none", l as isize + 1)) }
+        if l % 2 == 1 || thorough { let b = tag(&[3, l, 2]); out(format!("flip {b} 1")); out(format!("roll {b} {} 1", 1 + (l as isize) / 2)); if l % 4 == 1 || thorough { out(format!("rot90 {b} 1 1,2")); } }
+    }
+    for &p in &[19usize, 23, 29, 31, 37, 41, 43, 47, 49, 53, 97, 101, 127, 131, 251, 257, 1000, 1001] {
+        let a = tag(&[p]); out(format!("flip {a} 0")); out(format!("roll {a} {} 0", p / 2)); out(format!("roll {a} -1 none"));
+        if p <= 60 { let b = tag(&[p, p]); out(format!("rot90 {b} 1 0,1")); out(format!("flip {b} 1")); out(format!("roll {b} 1 1")); out(format!("flip {b} 0")); }
+    }
+    for s in [vec![5usize], vec![2, 3], vec![3, 4, 2], vec![7, 9]] {
+        let a = tag(&s); let nd = s.len();
+        for c in [0usize, 1, 2, 3] { for v in narrowing_images(c) {
+            out(format!("roll {a} {v} none")); out(format!("roll {a} -{v} {}", nd - 1)); out(format!("roll {a} {v},-{v},1 0,{},0", nd as isize - 1));
+            if nd >= 2 { out(format!("rot90 {a} {v} 0,{}", nd - 1)); }
+        } }
+        // axis numbers that are valid only after a narrowing cast must be refused
+        for v in narrowing_images(0) { out(format!("flip {a} {v}")); out(format!("roll {a} 1 {v}")); out(format!("flip {a} -{v}")); if nd >= 2 { out(format!("rot90 {a} 1 {v},1")); out(format!("rot90 {a} 1 0,-{v}")); } }
+        out(format!("roll {a} {} none", i64::MAX)); out(format!("roll {a} {} 0", i64::MIN + 1)); out(format!("roll {a} {} 0", i64::MIN));
+    }
+    // ---- 10. long argument lists and ranks 5..8: axis / shift lists with 3..6 entries in unsorted order and mixed spellings
+    for s in [vec![2usize, 3, 2, 2, 3], vec![2, 1, 2, 2, 1, 2], vec![3, 2, 2, 1, 2, 2], vec![2, 2, 2, 2, 2, 2, 2], vec![1, 2, 1, 2, 2, 1, 2, 3], vec![2, 2, 1, 3, 1, 2, 2, 2], vec![3, 4, 5], vec![4, 3, 2, 5]] {
+        let a = tag(&s); let nd = s.len();
+        for len in 3..=6usize { for _ in 0..(if thorough { 4 } else { 2 }) {
+            let axes: Vec<isize> = (0..len).map(|_| spell(rng.below(nd), nd, rng.below(2) == 0)).collect();
+            let shifts: Vec<i64> = (0..len).map(|_| rng.range(-9, 9)).collect();
+            out(format!("flip {a} {}", show_list(&axes)));
+            out(format!("roll {a} {} {}", show_list(&shifts), show_list(&axes)));
+            out(format!("roll {a} {} {}", shifts[0], show_list(&axes)));
+            out(format!("roll {a} {} {}", show_list(&shifts), axes[0]));
+            let p = rng.perm(nd); let dist: Vec<isize> = p.iter().take(len.min(nd)).enumerate().map(|(q, &x)| spell(x, nd, q % 2 == 0)).collect();
+            out(format!("flip {a} {}", show_list(&dist)));
+            out(format!("roll {a} {} {}", show_list(&shifts[..dist.len()]), show_list(&dist)));
+        } }
+        for _ in 0..(if thorough { 40 } else { 12 }) { let (i, j) = (rng.below(nd), rng.below(nd)); out(format!("rot90 {a} {} {},{}", rng.below(8), spell(i, nd, rng.below(2) == 0), spell(j, nd, rng.below(2) == 0))); }
+        out(format!("rot90 {a} 1 0,{}", nd - 1)); out(format!("rot90 {a} 3 {},0", nd - 1)); out(format!("rot90 {a} 1 {},{}", nd - 2, nd - 1)); out(format!("flip {a} none")); out(format!("fliplr {a}")); out(format!("flipud {a}"));
+    }
+    out("oracle_report final".to_string());
+}
+
+// ---------------------------------------------------------------- harness-native reference (coordinate formulas)
+
+use std::sync::atomic::{AtomicUsize, Ordering};
+static ORACLE_CHECKED: AtomicUsize = AtomicUsize::new(0);
+static ORACLE_SILENT: AtomicUsize = AtomicUsize::new(0);
+static ORACLE_ONLY: AtomicUsize = AtomicUsize::new(0);
+static ABA_RERUNS: AtomicUsize = AtomicUsize::new(0);
+static SEQ_CALLS: AtomicUsize = AtomicUsize::new(0);
+
+fn coords(mut p: usize, shape: &[usize], c: &mut [usize]) { for k in (0..shape.len()).rev() { c[k] = p % shape[k]; p /= shape[k]; } }
+fn flat_of(c: &[usize], shape: &[usize]) -> usize { c.iter().zip(shape).fold(0, |acc, (x, d)| acc * d + x) }
+/// `axis` spelled from either end -> axis number, `None` when it is outside [-rank, rank)
+fn norm_axis(ax: isize, nd: usize) -> Option<usize> { let n = nd as isize; if ax >= n || ax < -n { None } else { Some(if ax < 0 { (ax + n) as usize } else { ax as usize }) } }
+
+/// out[c] = in[src(c)] over the output shape `oshape`
+fn gather(oshape: &[usize], ishape: &[usize], e: &[i64], src: impl Fn(&mut Vec<usize>)) -> (Vec<usize>, Vec<i64>) {
+    let n: usize = oshape.iter().product();
+    let mut c = vec![0usize; oshape.len()];
+    let out = (0..n).map(|p| { coords(p, oshape, &mut c); src(&mut c); e[flat_of(&c, ishape)] }).collect();
+    (oshape.to_vec(), out)
+}
+fn flip_axes(shape: &[usize], e: &[i64], axes: &[usize]) -> (Vec<usize>, Vec<i64>) {
+    gather(shape, shape, e, |c| for &ax in axes { c[ax] = shape[ax] - 1 - c[ax]; })
+}
+fn swap_axes(shape: &[usize], e: &[i64], i: usize, j: usize) -> (Vec<usize>, Vec<i64>) {
+    let mut os = shape.to_vec(); os.swap(i, j);
+    gather(&os, shape, e, |c| c.swap(i, j))
+}
+
+/// The statement of C12 as direct coordinate formulas: flip sends index i of the axis to n-1-i, roll sends i to (i + shift) mod n
+/// (flat order without axes), one quarter turn = flip of the second axis followed by the exchange of the two axes.
+/// `None` = no opinion (arrays with a zero-length axis, empty shift lists, anything unusual): those cases are judged by the model only.
+/// `Some(None)` = the call must be refused.
+fn oracle(op: &str, args: &[&str]) -> Option<Option<(Vec<usize>, Vec<i64>)>> {
+    let (shape, e) = parse_arr_raw(args.first()?);
+    let nd = shape.len(); let n = e.len();
+    if n == 0 || nd == 0 || shape.iter().product::<usize>() != n { return None; }
+    let axes_of = |s: &str| -> Option<Vec<usize>> { parse_isize_list(s).into_iter().map(|a| norm_axis(a, nd)).collect() };
+    Some(match op {
+        "flip" => if args[1] == "none" { Some((shape.clone(), e.iter().rev().copied().collect())) } else { axes_of(args[1]).map(|ax| flip_axes(&shape, &e, &ax)) },
+        "flipud" => Some(flip_axes(&shape, &e, &[0])),
+        "fliplr" => if nd < 2 { None } else { Some(flip_axes(&shape, &e, &[1])) },
+        "roll" => {
+            let sh: Vec<i128> = parse_i64_list(args[1]).into_iter().map(|x| x as i128).collect();
+            if sh.is_empty() { return None; }
+            if args[2] == "none" {
+                // the shift list pairs with the single default axis: the shifts add up, along the flattened order
+                let total = sh.iter().sum::<i128>().rem_euclid(n as i128) as usize;
+                let mut out = vec![0i64; n];
+                for p in 0..n { out[(p + total) % n] = e[p]; }
+                Some((shape.clone(), out))
+            } else {
+                let raw = parse_isize_list(args[2]);
+                if raw.is_empty() { return None; }
+                let k = if sh.len() == raw.len() { sh.len() } else if sh.len() == 1 { raw.len() } else if raw.len() == 1 { sh.len() } else { return Some(None) };
+                let mut total = vec![0i128; nd];
+                for q in 0..k { match norm_axis(raw[if raw.len() == 1 { 0 } else { q }], nd) { Some(ax) => total[ax] += sh[if sh.len() == 1 { 0 } else { q }], None => return Some(None) } }
+                let back: Vec<usize> = (0..nd).map(|ax| (-total[ax]).rem_euclid(shape[ax] as i128) as usize).collect();
+                // the element now at coordinate c comes from c - shift (mod n) on every rolled axis
+                Some(gather(&shape, &shape, &e, |c| for ax in 0..nd { c[ax] = (c[ax] + back[ax]) % shape[ax]; }))
+            }
+        }
+        "rot90" => {
+            let k: usize = args[1].parse().ok()?;
+            let raw = parse_isize_list(args[2]);
+            if nd < 2 || raw.len() != 2 { return Some(None); }
+            let (i, j) = match (norm_axis(raw[0], nd), norm_axis(raw[1], nd)) { (Some(i), Some(j)) => (i, j), _ => return Some(None) };
+            // k successive single turns: flip the second axis, then exchange the two axes
+            let mut cur = (shape.clone(), e.clone());
+            for _ in 0..(k % 4) { let f = flip_axes(&cur.0, &cur.1, &[j]); cur = swap_axes(&f.0, &f.1, i, j); }
+            Some(cur)
+        }
+        _ => return None,
+    })
+}
+fn oracle_text(o: &Option<(Vec<usize>, Vec<i64>)>) -> String { match o { Some((s, e)) => format!("ok {}:{}", show_list(s), show_list(e)), None => "err".to_string() } }
+
+/// where two `ok shape:elements` answers differ
+fn diff_detail(obs: &str, want: &str) -> String {
+    let parse = |t: &str| -> Option<(String, Vec<String>)> { let b = t.strip_prefix("ok ")?; let (s, e) = b.split_once(':')?; Some((s.to_string(), e.split(',').map(|x| x.to_string()).collect())) };
+    match (parse(obs), parse(want)) {
+        (Some((so, eo)), Some((sw, ew))) => {
+            if so != sw { return format!("shape {so} instead of {sw}"); }
+            if eo.len() != ew.len() { return format!("{} elements instead of {}", eo.len(), ew.len()); }
+            let bad: Vec<usize> = (0..eo.len()).filter(|&p| eo[p] != ew[p]).collect();
+            match bad.first() { Some(&p) => format!("shape {so}: {} of {} positions differ, the first at flat position {p}: {} instead of {}", bad.len(), eo.len(), eo[p], ew[p]), None => "equal".into() }
+        }
+        _ => format!("`{}` instead of `{}`", truncate(obs, 200), truncate(want, 200)),
+    }
 }
 
 // ---------------------------------------------------------------- executor
 
-fn exec(op: &str, args: &[&str], expected: &str) -> Option<Verdict> {
+/// the real call: i64 / u8 / f64 (+ i8 / bool / String / f32 when `more`), both receivers, the i64 call twice
+fn run_call(op: &str, args: &[&str], more: bool) -> Option<String> {
     let src = *args.first()?;
     let optl = |s: &str| -> Option<Vec<isize>> { if s == "none" { None } else { Some(parse_isize_list(s)) } };
-    // the four further element types: arrays of at most 600 elements, one case line in three
-    let more = { let (sh, _) = parse_arr_raw(src); sh.iter().product::<usize>() <= 600 && args.iter().map(|a| a.len()).sum::<usize>() % 3 == 0 };
-    let obs = match op {
+    Some(match op {
         "flip" => { let ax = optl(args[1]); sweep_arr!(more, |T| { let a = arr_of::<T>(src); rx(|| a.flip(ax.clone()), || Ok(a.clone()).flip(ax.clone())) }) }
         "flipud" => sweep_arr!(more, |T| { let a = arr_of::<T>(src); rx(|| a.flipud(), || Ok(a.clone()).flipud()) }),
         "fliplr" => sweep_arr!(more, |T| { let a = arr_of::<T>(src); rx(|| a.fliplr(), || Ok(a.clone()).fliplr()) }),
@@ -230,11 +507,119 @@ fn exec(op: &str, args: &[&str], expected: &str) -> Option<Verdict> {
         "rot90" => { let k: usize = args[1].parse().ok()?; let ax = parse_isize_list(args[2]);
             sweep_arr!(more, |T| { let a = arr_of::<T>(src); rx(|| a.rot90(k, ax.clone()), || Ok(a.clone()).rot90(k, ax.clone())) }) }
         _ => return None,
-    };
+    })
+}
+
+/// only the plain call on `Array<i64>` (the A–B–A re-run)
+fn plain_i64(op: &str, args: &[&str]) -> Option<String> {
+    let a = parse_arr_i64(args.first()?);
+    let optl = |s: &str| -> Option<Vec<isize>> { if s == "none" { None } else { Some(parse_isize_list(s)) } };
+    Some(match op {
+        "flip" => { let ax = optl(args[1]); guarded(|| res_arr(&a.flip(ax))) }
+        "flipud" => guarded(|| res_arr(&a.flipud())),
+        "fliplr" => guarded(|| res_arr(&a.fliplr())),
+        "roll" => { let sh = parse_isize_list(args[1]); let ax = optl(args[2]); guarded(|| res_arr(&a.roll(sh, ax))) }
+        "rot90" => { let k: usize = args[1].parse().ok()?; let ax = parse_isize_list(args[2]); guarded(|| res_arr(&a.rot90(k, ax))) }
+        _ => return None,
+    })
+}
+
+fn elems_of(args: &[&str]) -> usize { args.first().map_or(0, |s| { let body = s.strip_prefix('i').unwrap_or(s); let sh = body.split(|c| c == '+' || c == ':').next().unwrap_or("-"); parse_usize_list(sh).iter().product() }) }
+
+/// one ordinary call line against the model's answer; on the way the native reference is compared with the model
+fn exec_call(op: &str, args: &[&str], expected: &str) -> Option<Verdict> {
+    // the four further element types: arrays of at most 600 elements, one case line in three
+    let more = elems_of(args) <= 600 && args.iter().map(|a| a.len()).sum::<usize>() % 3 == 0;
+    let obs = run_call(op, args, more)?;
+    match oracle(op, args) {
+        None => { ORACLE_SILENT.fetch_add(1, Ordering::Relaxed); }
+        Some(o) => {
+            let ot = oracle_text(&o);
+            let agree = if o.is_none() { class_of(expected) == "err" } else { ot == expected };
+            if !agree { return Some(Verdict::Mismatch { observed: obs, detail: format!("ORACLE-VS-MODEL the harness-native reference gives `{}`, the model `{}` ({}) (harness defect: the reference is not usable)", truncate(&ot, 300), truncate(expected, 300), diff_detail(&ot, expected)) }); }
+            ORACLE_CHECKED.fetch_add(1, Ordering::Relaxed);
+        }
+    }
     Some(compare_default(obs, expected))
 }
 
-fn nontrivial(_op: &str, args: &[&str]) -> bool { parse_arr_raw(args[0]).0.iter().filter(|&&d| d > 1).count() >= 2 }
+/// `n call…`: a huge array; the driver answers `ok native`, the crate is judged by the native reference
+fn exec_native(args: &[&str], expected: &str) -> Option<Verdict> {
+    if expected != "ok native" { return Some(compare_default("harness: an `n` line expects the driver to answer `ok native`".into(), expected)); }
+    let (op, rest) = (*args.first()?, &args[1..]);
+    let want = oracle_text(&oracle(op, rest)?);      // `n` lines are only generated where the reference has an opinion
+    ORACLE_ONLY.fetch_add(1, Ordering::Relaxed);
+    let obs = run_call(op, rest, false)?;
+    if obs == want || (class_of(&obs) == "err" && want == "err") { return Some(Verdict::Match(format!("ok native ({} bytes as the harness-native reference)", obs.len()))); }
+    Some(Verdict::Mismatch { detail: format!("differs from the harness-native coordinate reference: {}; reference `{}`", diff_detail(&obs, &want), truncate(&want, 300)), observed: truncate(&obs, 1500) })
+}
+
+thread_local! { static PREV: RefCell<Option<(String, Vec<String>, String)>> = const { RefCell::new(None) }; }
+
+fn exec(op: &str, args: &[&str], expected: &str) -> Option<Verdict> {
+    // VERIF_SLOW=<seconds>: name the case lines whose execution takes longer (tuning aid, no influence on the verdicts)
+    let t0 = std::time::Instant::now();
+    let v = exec_line(op, args, expected);
+    if let Some(lim) = std::env::var("VERIF_SLOW").ok().and_then(|s| s.parse::<f64>().ok()) { let dt = t0.elapsed().as_secs_f64(); if dt > lim { eprintln!("slow {dt:.2}s {op} {}", truncate(&args.join(" "), 150)); } }
+    v
+}
+
+fn exec_line(op: &str, args: &[&str], expected: &str) -> Option<Verdict> {
+    match op {
+        "oracle_report" => {
+            let text = format!("ok report: so far the harness-native reference agreed with the full model answer on {} cases (no opinion on {}), {} huge calls judged by the reference only, {} calls inside seq lines, {} implicit A-B-A re-runs",
+                ORACLE_CHECKED.load(Ordering::Relaxed), ORACLE_SILENT.load(Ordering::Relaxed), ORACLE_ONLY.load(Ordering::Relaxed), SEQ_CALLS.load(Ordering::Relaxed), ABA_RERUNS.load(Ordering::Relaxed));
+            if expected != "ok report" { return Some(compare_default(text, expected)); }
+            // the final report fails when the reference was (almost) never validated although it was relied upon
+            if args.first() == Some(&"final") && ORACLE_ONLY.load(Ordering::Relaxed) > 0 && ORACLE_CHECKED.load(Ordering::Relaxed) < 1000 {
+                return Some(Verdict::Mismatch { observed: text, detail: "the native reference was relied upon without having been compared with the model on at least 1000 cases of this run".into() });
+            }
+            Some(Verdict::Match(text))
+        }
+        "n" => exec_native(args, expected),
+        "seq" => {
+            let calls: Vec<&[&str]> = args.split(|t| *t == "/").collect();
+            let exps: Vec<&str> = expected.split(" / ").collect();
+            if calls.len() != exps.len() { return Some(compare_default(format!("harness: {} calls but {} model answers", calls.len(), exps.len()), expected)); }
+            let mut texts = vec![]; let mut bad: Option<String> = None;
+            for (q, (c, e)) in calls.iter().zip(&exps).enumerate() {
+                SEQ_CALLS.fetch_add(1, Ordering::Relaxed);
+                let v = if c.first() == Some(&"n") { exec_native(&c[1..], e)? } else { exec_call(c.first()?, &c[1..], e)? };
+                match v {
+                    Verdict::Match(o) | Verdict::Open(o) => texts.push(truncate(&o, 400)),
+                    Verdict::Mismatch { observed, detail } => { if bad.is_none() { bad = Some(format!("call {} of the sequence (`{}`): {}", q + 1, c.join(" "), detail)); } texts.push(truncate(&observed, 400)); }
+                }
+            }
+            let obs = texts.join(" / ");
+            Some(match bad { Some(d) => Verdict::Mismatch { observed: obs, detail: d }, None => Verdict::Match(obs) })
+        }
+        _ => {
+            let v = exec_call(op, args, expected)?;
+            // implicit A–B–A: after a share of the small cases the PREVIOUS case is run again and must repeat its answer
+            let small = elems_of(args) <= 600;
+            if small && args.iter().map(|a| a.len()).sum::<usize>() % 4 == 1 {
+                if let Some((pop, pargs, pans)) = PREV.with(|p| p.borrow().clone()) {
+                    let pa: Vec<&str> = pargs.iter().map(|s| s.as_str()).collect();
+                    if let Some(again) = plain_i64(&pop, &pa) {
+                        ABA_RERUNS.fetch_add(1, Ordering::Relaxed);
+                        if again != pans { if let Verdict::Match(o) = &v { return Some(Verdict::Mismatch { observed: o.clone(), detail: format!("A-B-A: after this call the previous case `{} {}` no longer repeats its answer: `{}` instead of `{}`", pop, pargs.join(" "), truncate(&again, 300), truncate(&pans, 300)) }); } }
+                    }
+                }
+            }
+            if small { if let Some(ans) = plain_i64(op, args) { PREV.with(|p| *p.borrow_mut() = Some((op.to_string(), args.iter().map(|s| s.to_string()).collect(), ans))); } }
+            Some(v)
+        }
+    }
+}
+
+fn nontrivial(op: &str, args: &[&str]) -> bool {
+    match op {
+        "oracle_report" => false,
+        "seq" => args.split(|t| *t == "/").any(|c| !c.is_empty() && nontrivial(c[0], &c[1..])),
+        "n" => args.len() >= 2 && nontrivial(args[0], &args[1..]),
+        _ => { let s = args[0]; let body = s.strip_prefix('i').unwrap_or(s); let sh = body.split(|c| c == '+' || c == ':').next().unwrap_or("-"); parse_usize_list(sh).iter().filter(|&&d| d > 1).count() >= 2 }
+    }
+}
 
 fn main() {
     harness_main(Spec { prop: "C12", gen, exec, nontrivial, hang_secs: 20,
